@@ -31,22 +31,134 @@ func (e *Engine) checkPartialLoad(salt uint64) error {
 		if err != nil {
 			return e.viol("%v", err)
 		}
-		st := NewStorage(e.L)
-		loaded := map[atree.SlabID]bool{r.Root: true}
-		var toLoad []atree.SlabID
-		for _, si := range ref.Order {
-			if si.ID == r.Root {
+		// which subsets of the non-root slabs are loaded: a generated one, and for small trees every subset
+		const randomMask = ^uint64(0)
+		masks := []uint64{randomMask}
+		nonRoot := len(ref.Order) - 1
+		lim := 5
+		if thorough() {
+			lim = 8
+		}
+		if nonRoot >= 1 && nonRoot <= lim {
+			for m := uint64(0); m < 1<<uint(nonRoot); m++ {
+				masks = append(masks, m)
+			}
+			e.Stats.label("partial_load_all_subsets")
+			e.Stats.Add("partial_load_subsets", 1<<uint(nonRoot))
+		}
+		for _, mask := range masks {
+			st := NewStorage(e.L)
+			loaded := map[atree.SlabID]bool{r.Root: true}
+			var toLoad []atree.SlabID
+			j := 0
+			for _, si := range ref.Order {
+				if si.ID == r.Root {
+					continue
+				}
+				sel := mix64(salt^si.ID.IndexAsUint64()*0x9E3779B97F4A7C15)%10 < 6
+				if mask != randomMask {
+					sel = mask>>uint(j)&1 == 1
+				}
+				j++
+				if sel {
+					loaded[si.ID] = true
+					toLoad = append(toLoad, si.ID)
+				}
+			}
+			var got []atree.Value
+			var gotK []atree.Value
+			if r.IsMap {
+				m, err := atree.NewMapWithRootID(st, r.Root, e.digesterFor(r))
+				if err != nil {
+					return e.viol("partial load: cannot open root: %v", err)
+				}
+				for _, id := range toLoad {
+					if _, _, err := st.Retrieve(id); err != nil {
+						return e.viol("partial load: %v", err)
+					}
+				}
+				err = m.IterateReadOnlyLoadedValues(func(k, v atree.Value) (bool, error) {
+					gotK = append(gotK, k)
+					got = append(got, v)
+					return true, nil
+				})
+				if err != nil {
+					return e.viol("loaded-value iteration of a partially loaded map failed: %v", err)
+				}
+				order := e.expectedOrder(r, m.Seed())
+				var want []string
+				pos := 0
+				var leafWalk func(si *SI) error
+				var pairs func(items []atree.Storable, yield bool, owner *SI) error
+				pairs = func(items []atree.Storable, yield bool, owner *SI) error {
+					for i := 0; i < len(items); {
+						if id, isRef := items[i].(atree.SlabIDStorable); isRef {
+							if g, ok := ref.Slabs[atree.SlabID(id)]; ok && g.Kind == kCollGroup {
+								if err := pairs(g.Slab.ChildStorables(), yield && loaded[g.ID], g); err != nil {
+									return err
+								}
+								i++
+								continue
+							}
+						}
+						if i+1 >= len(items) {
+							return fmt.Errorf("odd number of child storables in %s", owner.ID)
+						}
+						y := yield
+						if id, isRef := isRefStorable(items[i]); isRef && !loaded[id] {
+							y = false
+						}
+						if id, isRef := isRefStorable(items[i+1]); isRef && !loaded[id] {
+							y = false
+						}
+						if pos >= len(order) {
+							return fmt.Errorf("tree holds more entries than the model")
+						}
+						if y {
+							want = append(want, order[pos])
+						}
+						pos++
+						i += 2
+					}
+					return nil
+				}
+				leafWalk = func(si *SI) error {
+					if si.Kind == kMapMeta {
+						for _, k := range si.Kids {
+							if loaded[k.ID] {
+								if err := leafWalk(k); err != nil {
+									return err
+								}
+							} else {
+								pos += int(countEntriesUnder(k))
+							}
+						}
+						return nil
+					}
+					return pairs(si.Slab.ChildStorables(), true, si)
+				}
+				if err := leafWalk(rootSI); err != nil {
+					return e.viol("partial load: %v", err)
+				}
+				if len(got) != len(want) {
+					return e.viol("partially loaded map#%d (%d of %d slabs loaded): iterator yields %d entries, expected %d", r.ID, len(loaded), len(ref.Order), len(got), len(want))
+				}
+				for i := range got {
+					ck, err := canonOfValue(gotK[i])
+					if err != nil || ck != want[i] {
+						return e.viol("partially loaded map#%d: position %d holds key %v, expected %s", r.ID, i, gotK[i], short(want[i]))
+					}
+					if err := cmpValue(got[i], r.Ents[ck].V, fmt.Sprintf("partially loaded map#%d value of %s", r.ID, short(ck)), CmpOpts{Hip: e.CB.PlainHIP}); err != nil {
+						return e.viol("%v", err)
+					}
+				}
+				if len(want) < len(order) {
+					e.Stats.label("partial_load_skipped_elements")
+				}
+				e.Stats.label("partial_load_checked")
 				continue
 			}
-			if mix64(salt^si.ID.IndexAsUint64()*0x9E3779B97F4A7C15)%10 < 6 {
-				loaded[si.ID] = true
-				toLoad = append(toLoad, si.ID)
-			}
-		}
-		var got []atree.Value
-		var gotK []atree.Value
-		if r.IsMap {
-			m, err := atree.NewMapWithRootID(st, r.Root, e.digesterFor(r))
+			a, err := atree.NewArrayWithRootID(st, r.Root)
 			if err != nil {
 				return e.viol("partial load: cannot open root: %v", err)
 			}
@@ -55,137 +167,48 @@ func (e *Engine) checkPartialLoad(salt uint64) error {
 					return e.viol("partial load: %v", err)
 				}
 			}
-			err = m.IterateReadOnlyLoadedValues(func(k, v atree.Value) (bool, error) {
-				gotK = append(gotK, k)
+			err = a.IterateReadOnlyLoadedValues(func(v atree.Value) (bool, error) {
 				got = append(got, v)
 				return true, nil
 			})
 			if err != nil {
-				return e.viol("loaded-value iteration of a partially loaded map failed: %v", err)
+				return e.viol("loaded-value iteration of a partially loaded array failed: %v", err)
 			}
-			order := e.expectedOrder(r, m.Seed())
-			var want []string
+			var want []int
 			pos := 0
-			var leafWalk func(si *SI) error
-			var pairs func(items []atree.Storable, yield bool, owner *SI) error
-			pairs = func(items []atree.Storable, yield bool, owner *SI) error {
-				for i := 0; i < len(items); {
-					if id, isRef := items[i].(atree.SlabIDStorable); isRef {
-						if g, ok := ref.Slabs[atree.SlabID(id)]; ok && g.Kind == kCollGroup {
-							if err := pairs(g.Slab.ChildStorables(), yield && loaded[g.ID], g); err != nil {
-								return err
-							}
-							i++
-							continue
-						}
-					}
-					if i+1 >= len(items) {
-						return fmt.Errorf("odd number of child storables in %s", owner.ID)
-					}
-					y := yield
-					if id, isRef := isRefStorable(items[i]); isRef && !loaded[id] {
-						y = false
-					}
-					if id, isRef := isRefStorable(items[i+1]); isRef && !loaded[id] {
-						y = false
-					}
-					if pos >= len(order) {
-						return fmt.Errorf("tree holds more entries than the model")
-					}
-					if y {
-						want = append(want, order[pos])
-					}
-					pos++
-					i += 2
-				}
-				return nil
-			}
-			leafWalk = func(si *SI) error {
-				if si.Kind == kMapMeta {
+			var leafWalk func(si *SI)
+			leafWalk = func(si *SI) {
+				if si.Kind == kArrMeta {
 					for _, k := range si.Kids {
 						if loaded[k.ID] {
-							if err := leafWalk(k); err != nil {
-								return err
-							}
+							leafWalk(k)
 						} else {
-							pos += int(countEntriesUnder(k))
+							pos += int(k.Count)
 						}
 					}
-					return nil
+					return
 				}
-				return pairs(si.Slab.ChildStorables(), true, si)
+				for _, el := range si.Slab.ChildStorables() {
+					if id, isRef := isRefStorable(el); !isRef || loaded[id] {
+						want = append(want, pos)
+					}
+					pos++
+				}
 			}
-			if err := leafWalk(rootSI); err != nil {
-				return e.viol("partial load: %v", err)
-			}
+			leafWalk(rootSI)
 			if len(got) != len(want) {
-				return e.viol("partially loaded map#%d (%d of %d slabs loaded): iterator yields %d entries, expected %d", r.ID, len(loaded), len(ref.Order), len(got), len(want))
+				return e.viol("partially loaded array#%d (%d of %d slabs loaded): iterator yields %d elements, expected %d", r.ID, len(loaded), len(ref.Order), len(got), len(want))
 			}
 			for i := range got {
-				ck, err := canonOfValue(gotK[i])
-				if err != nil || ck != want[i] {
-					return e.viol("partially loaded map#%d: position %d holds key %v, expected %s", r.ID, i, gotK[i], short(want[i]))
-				}
-				if err := cmpValue(got[i], r.Ents[ck].V, fmt.Sprintf("partially loaded map#%d value of %s", r.ID, short(ck)), CmpOpts{Hip: e.CB.PlainHIP}); err != nil {
+				if err := cmpValue(got[i], r.Elems[want[i]], fmt.Sprintf("partially loaded array#%d element %d", r.ID, want[i]), CmpOpts{Hip: e.CB.PlainHIP}); err != nil {
 					return e.viol("%v", err)
 				}
 			}
-			if len(want) < len(order) {
+			if len(want) < len(r.Elems) {
 				e.Stats.label("partial_load_skipped_elements")
 			}
 			e.Stats.label("partial_load_checked")
-			continue
 		}
-		a, err := atree.NewArrayWithRootID(st, r.Root)
-		if err != nil {
-			return e.viol("partial load: cannot open root: %v", err)
-		}
-		for _, id := range toLoad {
-			if _, _, err := st.Retrieve(id); err != nil {
-				return e.viol("partial load: %v", err)
-			}
-		}
-		err = a.IterateReadOnlyLoadedValues(func(v atree.Value) (bool, error) {
-			got = append(got, v)
-			return true, nil
-		})
-		if err != nil {
-			return e.viol("loaded-value iteration of a partially loaded array failed: %v", err)
-		}
-		var want []int
-		pos := 0
-		var leafWalk func(si *SI)
-		leafWalk = func(si *SI) {
-			if si.Kind == kArrMeta {
-				for _, k := range si.Kids {
-					if loaded[k.ID] {
-						leafWalk(k)
-					} else {
-						pos += int(k.Count)
-					}
-				}
-				return
-			}
-			for _, el := range si.Slab.ChildStorables() {
-				if id, isRef := isRefStorable(el); !isRef || loaded[id] {
-					want = append(want, pos)
-				}
-				pos++
-			}
-		}
-		leafWalk(rootSI)
-		if len(got) != len(want) {
-			return e.viol("partially loaded array#%d (%d of %d slabs loaded): iterator yields %d elements, expected %d", r.ID, len(loaded), len(ref.Order), len(got), len(want))
-		}
-		for i := range got {
-			if err := cmpValue(got[i], r.Elems[want[i]], fmt.Sprintf("partially loaded array#%d element %d", r.ID, want[i]), CmpOpts{Hip: e.CB.PlainHIP}); err != nil {
-				return e.viol("%v", err)
-			}
-		}
-		if len(want) < len(r.Elems) {
-			e.Stats.label("partial_load_skipped_elements")
-		}
-		e.Stats.label("partial_load_checked")
 	}
 	return nil
 }
